@@ -197,6 +197,11 @@ fn write_chunk(input: &[u8], input_used: &mut usize, w: &mut Writer, max_chunk: 
 
     let to_write = input.len().min(max_chunk).min(available);
 
+    if to_write == 0 {
+        // No room for any data. A chunk of length 0 would end the body.
+        return false;
+    }
+
     let success = w.try_write(|w| {
         // chunk length
         write!(w, "{:0x?}\r\n", to_write)?;
